@@ -166,7 +166,10 @@ func ruleFuncValuesOfCorrectType(observers *Events, addError AddErrFunc, disable
 							return
 						}
 
-						isVariable := fieldValue.Kind == ast.Variable
+						// (the variable has no definition when the operation does not declare it, or
+						// when the fragment holding the literal is walked on its own: NoUndefinedVariables
+						// reports the former)
+						isVariable := fieldValue.Kind == ast.Variable && fieldValue.VariableDefinition != nil
 						if isVariable {
 							variableName := fieldValue.VariableDefinition.Variable
 							isNullableVariable := !fieldValue.VariableDefinition.Type.NonNull
